@@ -1,6 +1,6 @@
 (* C05 -- Only credentials the auth back-end accepts authenticate, as exactly that user.
    Only statements; each closed by `exact` of a lemma from Proofs/, followed by Print Assumptions.
-   Gen/LoginMapGen.v and Gen/GateSkelGen.v are REGENERATED from the repository on every run (tie T;
+   Gen/LoginMapC05Gen.v and Gen/GateSkelGen.v are REGENERATED from the repository on every run (tie T;
    lemmas Gen_map_login_eq in Proofs/C05GenEq.v and Gen_gate_skeleton_eq in Proofs/C05GenEqGate.v, the
    latter compiled separately by checks/C05.py); the models Model/Gate.v and
    Model/Htpasswd.v are tied to the code by the correspondence runs of checks/C05.py (tie K).
@@ -11,14 +11,14 @@ From Coq Require Import List NArith ZArith Bool.
 Import ListNotations.
 Require Import RV.Lib.PyStr RV.Model.Path RV.Model.C05Text RV.Model.LoginMap RV.Model.Gate RV.Model.Htpasswd RV.Model.C05Compose.
 Require Import RV.Proofs.C05Gate RV.Proofs.C05GateEx RV.Proofs.C05Htpasswd RV.Proofs.C05HtpasswdEx RV.Proofs.C05GenEq RV.Proofs.C05Compose.
-Require RV.Gen.LoginMapGen.
+Require RV.Gen.LoginMapC05Gen.
 Open Scope N_scope.
 
 (* ---------------------------------------------------------------------------------------------
    Login-name mapping (translated from BaseAuth.login on every run): lower, then upper, then the text
    before the first "@". *)
 Theorem C05_login_map : forall py_lower py_upper lc uc sd login,
-  LoginMapGen.map_login py_lower py_upper lc uc sd login =
+  LoginMapC05Gen.map_login py_lower py_upper lc uc sd login =
   (let l1 := if lc then py_lower login else login in
    let l2 := if uc then py_upper l1 else l1 in
    if sd then fst (split1 at_sign l2) else l2).
